@@ -327,17 +327,20 @@ def readRData (opq : Nat → Rd Bytes) (t : Nat) : Rd RData := do
         | some v => pure v
         | none => fail
 
+/-- the CLASS field in `Record::read`: overloaded for OPT, whose owner must be the root -/
+def readClass (n : Name) (t : Nat) : Rd Nat :=
+  if t = T_OPT then
+    if !n.isRoot then fail                                   -- EdnsNameNotRoot
+    else do
+      let v ← readU16
+      pure (max v 512)                                       -- DNSClass::for_opt
+  else readU16
+
 /-- `Record::read` -/
 def readRecord (opq : Nat → Rd Bytes) : Rd Record := do
   let n ← Rd.name
   let t ← readU16
-  let cls ←
-    if t = T_OPT then
-      if !n.isRoot then fail                                 -- EdnsNameNotRoot
-      else do
-        let v ← readU16
-        pure (max v 512)                                     -- DNSClass::for_opt
-    else readU16
+  let cls ← readClass n t
   let ttl ← readU32
   let rdlen ← readU16
   let left ← remaining
